@@ -68,6 +68,18 @@ def variants(p, f, wpart):
     return [[base], [obs], [pos], [neg]]
 
 
+# raw-text family: theory atoms the formula generators cannot write (no element at all; several elements; the constant next to the empty atom)
+RAW_BASE = '#program always.\n{ a; b }.\n'
+RAW_CASES = [('', ['&tel { }']), ('x :- not not &tel { &true }.\n', ['&tel { }']), ('x :- not not &tel { }.\n', ['&tel { &true }']), ('x :- not not &del { }.\n', ['&tel { }']),
+             ('x :- not not &tel { }.\n', ['&del { }']), ('', ['&del { }']), ('x :- not &tel { }.\n', ['&tel { a ; &true }']), ('x :- not not &tel { a }.\n', ['&tel { a ; &true }']),
+             ('x :- not not &tel { a ; b }.\n', ['&tel { a & b }']), ('x :- not not &tel { > a ; b }.\n', ['&tel { b & > a }', '&tel { }']), ('y :- not not &del { &true .>? a }.\n', ['&del { }', '&tel { > a }'])]
+
+
+def raw_variants(base, atom, part='always'):
+    b = RAW_BASE + base
+    return [[b], [b + '#program %s.\nwobs :- not not %s.\n' % (part, atom)], [b + '#program initial.\n:- %s.\n' % atom], [b + '#program initial.\n:- not %s.\n' % atom]]
+
+
 def judge(rs):
     """rs = results of base, observer, positive constraint, negated constraint"""
     b, o, p, n = rs
@@ -106,7 +118,18 @@ def run(ctx):
         elif 'ok' in rs[0] and any(rs[2]['ok'][h] and rs[3]['ok'][h] for h in rs[0]['ok']):
             nontriv.add(inputs[4 * i + 1][0])
     # shipped examples without show statements interfering: observer over their own atoms is covered in C09/C17; here a fixed small one
-    cov = {'evaluations': 4 * len(items), 'distinct_nontrivial': len(nontriv),
+    rinputs, rmeta = [], []
+    for base, atoms in RAW_CASES:
+        for atom in atoms:
+            for part in ('always', 'dynamic'):
+                rinputs += raw_variants(base, atom, part)
+                rmeta.append((base, atom, part))
+    rres = meta.answer_sets(ctx, rinputs, H, hide=('wobs',))
+    for i, (base, atom, part) in enumerate(rmeta):
+        v = judge(rres[4 * i:4 * i + 4])
+        if v:
+            cex.append({'key': 'c13:raw:' + rinputs[4 * i + 1][0].replace('\n', ' '), 'what': v, 'input': {'raw': [base, atom, part], 'H': H, 'program': rinputs[4 * i][0], 'observer_program': rinputs[4 * i + 1][0]}})
+    cov = {'evaluations': 4 * len(items) + len(rinputs), 'raw_text_cases': len(rmeta), 'distinct_nontrivial': len(nontriv),
            'rule': 'base programs from the core / future / body-formula / head-formula / del generators x one tel or del formula; four pipeline runs each (P, P+observer, '
                    'P+constraint, P+negated constraint), horizons 0..%d compared with multiplicity; non-trivial = both classes of the split are non-empty at some horizon' % H,
            'base_programs': len(items), 'base_programs_rejected_by_telingo': rejected,
@@ -120,6 +143,9 @@ def totuple(x):
 
 def replay(ctx, payload):
     inp = payload['input']
+    if 'raw' in inp:
+        base, atom, part = inp['raw']
+        return judge(meta.answer_sets(ctx, raw_variants(base, atom, part), inp.get('H', 3), hide=('wobs',))) is not None
     f = totuple(inp['formula'])
     res = meta.answer_sets(ctx, variants(inp['rules'], f, inp['wpart']), inp.get('H', 3), hide=('wobs',))
     return judge(res) is not None
